@@ -1035,4 +1035,27 @@ example : (exportH hShared 3 [] (.ref 1)).map (Spec.erase env0) = Spec.unfoldTre
 example : exportH [.obj [([115], .ref 0)]] 2 [] (.ref 0) = .ok (.map .iface false (.cons [115] (rawValue 0) .nil)) := by decide
 
 
+/-! ## Part D: re-entrant API use, and API edge cases (finite domains: proved by case analysis AND enumerated by the harness) -/
+
+/-- Whatever the calling JavaScript function shadows (var, parameter, catch binding, with object), a re-entrant
+    Otto.Call / Otto.Run / Value.Call / Object.Call from a host function resolves the callee as GLOBAL code, and
+    Otto.Eval as a direct eval in the caller – as the equivalent in-language code does. -/
+theorem reentry_equiv (r : Reentry) (s : Shadow) : reentryResolves r s = Spec.reentryResolves r s := by
+  cases r <;> cases s <;> rfl
+
+theorem reentry_global (r : Reentry) (s : Shadow) (h : r ≠ .ottoEval) : reentryResolves r s = .global := by
+  cases r <;> first | rfl | exact absurd rfl h
+
+/-- Outside the listed regions every API edge case gives the specified result (in particular: no Go panic). -/
+theorem api_cases (c : ApiCase) (h : Spec.Dev.apiRegion c = none) : apiModel c = Spec.apiSpec c := by
+  cases c <;> first | rfl | (simp [Spec.Dev.apiRegion] at h)
+
+-- each region deviates (witnesses)
+example : apiModel .runThrowToStringThrows = .goPanic ∧ Spec.apiSpec .runThrowToStringThrows = .errPlain := ⟨rfl, rfl⟩
+example : apiModel .badIsNaN = .goPanic := rfl
+example : apiModel .callerLocationNoScript = .goPanic := rfl
+example : apiModel .setNilObject = .goPanic := rfl
+example : apiModel .marshalFunction ≠ Spec.apiSpec .marshalFunction := by decide
+example : apiModel .callTwoStatements ≠ Spec.apiSpec .callTwoStatements := by decide
+
 end OttoVerif.C15.Thm
